@@ -301,6 +301,69 @@ def exportKeyingMaterial (H : Hash13) (masterSecret msgs : Bytes) (label context
   | .err => .err
   | .panic => .panic
 
+
+/-! ## how the handshake code wires the functions above (handshake_client.go: establishKeys, loadSession;
+handshake_client_tls13.go / handshake_server_tls13.go: establishHandshakeKeys, readServerFinished / sendServerFinished,
+sendClientFinished / sendSessionTickets, checkForResumption).  The label literal at every call site is T1-extracted
+(`ZV.Generated.C26.scheduleCalls`). -/
+
+/-- `establishKeys`: `keysFromMasterSecret(c.vers, hs.suite, …, hs.suite.macLen, hs.suite.keyLen, hs.suite.ivLen)`;
+`row` = (id, macLen, keyLen, ivLen, flags&suiteSHA384 ≠ 0) is the suite's row of `implementedCipherSuites`. -/
+def establishKeys (P : Prims) (version : Nat) (row : Nat × Nat × Nat × Nat × Bool)
+    (masterSecret clientRandom serverRandom : Bytes) : Res Keys :=
+  keysFromMasterSecret P version row.2.2.2.2 masterSecret clientRandom serverRandom row.2.1 row.2.2.1 row.2.2.2.1
+
+def derivedLabel : Bytes := (ascii "derived")
+def resumptionPskLabel : Bytes := (ascii "resumption")
+def resumptionBinderLabel : Bytes := (ascii "res binder")
+def clientHandshakeTrafficLabel : Bytes := (ascii "c hs traffic")
+def serverHandshakeTrafficLabel : Bytes := (ascii "s hs traffic")
+def clientApplicationTrafficLabel : Bytes := (ascii "c ap traffic")
+def serverApplicationTrafficLabel : Bytes := (ascii "s ap traffic")
+def resumptionLabel : Bytes := (ascii "res master")
+
+/-- `loadSession` / `checkForResumption`: `psk := expandLabel(resumption secret, "resumption", ticket nonce, Hash.Size())` -/
+def ticketPSK (H : Hash13) (resumptionSecret nonce : Bytes) : Res Bytes :=
+  expandLabel H resumptionSecret resumptionPskLabel nonce H.size
+
+/-- `earlySecret`: `extract(psk, nil)` when a PSK is used, `extract(nil, nil)` otherwise -/
+def earlySecret (H : Hash13) (psk : Option Bytes) : Bytes := extract H psk []
+
+/-- `binderKey = deriveSecret(earlySecret, "res binder", nil)`; `binder = finishedHash(binderKey, Hash(ClientHello without binders))` -/
+def pskBinder (H : Hash13) (psk truncatedHello : Bytes) : Res Bytes :=
+  (deriveSecret H (earlySecret H (some psk)) resumptionBinderLabel none).bind fun binderKey =>
+  finishedHash13 H binderKey truncatedHello
+
+structure HsKeys where
+  clientSecret : Bytes
+  serverSecret : Bytes
+  masterSecret : Bytes
+  deriving DecidableEq, Repr
+
+/-- `establishHandshakeKeys` (client) / the same lines of `sendServerParameters` + `sendServerFinished` (server):
+`msgs` = ClientHello … ServerHello. -/
+def establishHandshakeKeys (H : Hash13) (early sharedKey msgs : Bytes) : Res HsKeys :=
+  (deriveSecret H early derivedLabel none).bind fun d =>
+  (deriveSecret H (extract H (some sharedKey) d) clientHandshakeTrafficLabel (some msgs)).bind fun c =>
+  (deriveSecret H (extract H (some sharedKey) d) serverHandshakeTrafficLabel (some msgs)).bind fun s =>
+  (deriveSecret H (extract H (some sharedKey) d) derivedLabel none).bind fun d2 =>
+  .ok ⟨c, s, extract H none d2⟩
+
+structure AppKeys where
+  clientSecret : Bytes
+  serverSecret : Bytes
+  deriving DecidableEq, Repr
+
+/-- `readServerFinished` / `sendServerFinished`: `msgs` = ClientHello … server Finished -/
+def applicationSecrets (H : Hash13) (masterSecret msgs : Bytes) : Res AppKeys :=
+  (deriveSecret H masterSecret clientApplicationTrafficLabel (some msgs)).bind fun c =>
+  (deriveSecret H masterSecret serverApplicationTrafficLabel (some msgs)).bind fun s =>
+  .ok ⟨c, s⟩
+
+/-- `sendClientFinished` / `sendSessionTickets`: `msgs` = ClientHello … client Finished -/
+def resumptionSecret (H : Hash13) (masterSecret msgs : Bytes) : Res Bytes :=
+  deriveSecret H masterSecret resumptionLabel (some msgs)
+
 /-! ## suite tables as far as key derivation reads them (tied to the tree by T1, see `ZV.Generated.C26`) -/
 
 /-- TLS ≤ 1.2 suites whose PRF hash is SHA-384 (RFC 5288 / 5289: the `_SHA384` suites). -/
@@ -398,6 +461,40 @@ def write_iv (H : Hash13) (secret : Bytes) (ivLength : Nat) : Bytes :=
 `verify_data = HMAC(finished_key, Transcript-Hash(...))`. -/
 def verify_data13 (H : Hash13) (baseKey messages : Bytes) : Bytes :=
   H.hmac (HKDF_Expand_Label H baseKey (ascii "finished") [] H.size) (H.hash messages)
+
+/-- RFC 5869 §2.2: `HKDF-Extract(salt, IKM) = HMAC-Hash(salt, IKM)` -/
+def HKDF_Extract (H : Hash13) (salt ikm : Bytes) : Bytes := H.hmac salt ikm
+
+/-- "0" in the RFC 8446 §7.1 figure: a string of `Hash.length` zero bytes -/
+def zeros (H : Hash13) : Bytes := List.replicate H.size 0
+
+/-- RFC 8446 §7.1: `Early Secret = HKDF-Extract(0, PSK)` (PSK = 0 when there is none) -/
+def Early_Secret (H : Hash13) (psk : Option Bytes) : Bytes := HKDF_Extract H (zeros H) (psk.getD (zeros H))
+/-- `Handshake Secret = HKDF-Extract(Derive-Secret(Early Secret, "derived", ""), (EC)DHE)` -/
+def Handshake_Secret (H : Hash13) (early dhe : Bytes) : Bytes :=
+  HKDF_Extract H (Derive_Secret H early (ascii "derived") []) dhe
+/-- `Master Secret = HKDF-Extract(Derive-Secret(Handshake Secret, "derived", ""), 0)` -/
+def Master_Secret (H : Hash13) (hs : Bytes) : Bytes :=
+  HKDF_Extract H (Derive_Secret H hs (ascii "derived") []) (zeros H)
+/-- RFC 8446 §4.6.1: `PSK = HKDF-Expand-Label(resumption_master_secret, "resumption", ticket_nonce, Hash.length)` -/
+def Ticket_PSK (H : Hash13) (resumptionMasterSecret nonce : Bytes) : Bytes :=
+  HKDF_Expand_Label H resumptionMasterSecret (ascii "resumption") nonce H.size
+/-- RFC 8446 §4.2.11.2: the binder is the Finished computation with
+`BaseKey = binder_key = Derive-Secret(Early Secret, "res binder", "")` over the truncated ClientHello -/
+def PSK_Binder (H : Hash13) (psk truncatedHello : Bytes) : Bytes :=
+  verify_data13 H (Derive_Secret H (Early_Secret H (some psk)) (ascii "res binder") []) truncatedHello
+
+/-- the TLS ≤ 1.2 PRF per protocol version: RFC 2246 §5 (TLS 1.0, RFC 4346 for 1.1), RFC 5246 §5 with the suite's
+PRF hash; `n` blocks always cover `n` bytes. No PRF is defined for other versions. -/
+def PRF (P : Prims) (version : Nat) (sha384 : Bool) (secret label seed : Bytes) (n : Nat) : Option Bytes :=
+  if version = 0x0301 ∨ version = 0x0302 then some (PRF10 P.hmacMD5 P.hmacSHA1 secret label seed n n n)
+  else if version = 0x0303 then
+    some (PRF12 (if sha384 then P.hmacSHA384 else P.hmacSHA256) secret label seed n n)
+  else none
+
+/-- RFC 2246 / 5246 §7.4.9: the handshake hash under the Finished PRF: MD5 + SHA-1 before TLS 1.2, the PRF hash in 1.2 -/
+def Handshake_Hash (P : Prims) (version : Nat) (sha384 : Bool) (msgs : Bytes) : Bytes :=
+  if version = 0x0303 then (if sha384 then P.sha384 msgs else P.sha256 msgs) else P.md5 msgs ++ P.sha1 msgs
 
 end RFC
 
